@@ -126,6 +126,20 @@ impl DeleteListener for KillRing {
         self.kill(string, mode);
     }
 
+    fn delete_around(&mut self, _: usize, before: &str, after: &str) {
+        if !self.killing {
+            return;
+        }
+        // the text on the left of the cursor goes before, the text on the right goes behind what
+        // the kill sequence has accumulated: left-to-right order is kept
+        if !before.is_empty() {
+            self.kill(before, Mode::Prepend);
+        }
+        if !after.is_empty() {
+            self.kill(after, Mode::Append);
+        }
+    }
+
     fn stop_killing(&mut self) {
         self.killing = false;
     }
